@@ -362,6 +362,18 @@ def _returns(P, R):
         R.hold("c", "every spawned handle is joined before the level's results are read (the only early exit propagates a worker panic)", fn=par)
     else:
         R.violate("c", "join", "execute_rules_parallel does not join every spawned thread before reading the results (join loop ok=%s, read after join=%s)" % (okj, after), par)
+    # the buffer the workers publish into is this level's own: created empty in this function (or emptied before the spawn) -
+    # a buffer shared across levels and never drained makes every later level report the earlier levels' contexts again
+    for r in reads[:1]:
+        rs = par.sym_operand(r.args[0])
+        fresh = any(x[0] == "call" and x[1].endswith("Mutex::new") and x[2] and any(y[0] == "call" and y[1].endswith(("Vec::new", "Vec::with_capacity")) for y in walk(x[2][0])) for x in walk(rs))
+        from_param = any(x[0] == "param" and x[1] >= 2 for x in walk(rs)) or any(x[0] == "field" and strip(x[1])[0] == "param" and strip(x[1])[1] == 1 for x in walk(rs))
+        if fresh and not from_param:
+            R.hold("c", "the results buffer is created empty inside execute_rules_parallel (one per level)", fn=par, line=r.line)
+        elif from_param:
+            R.violate("c", "results-buffer-not-per-level", "execute_rules_parallel publishes into a results buffer it did not create (`%s`): contexts of earlier levels are still in it and are returned again" % fmt_named(rs, 5)[:80], par, r.line)
+        else:
+            R.undecide("c", "results-buffer", "origin of the results buffer not recognised (`%s`)" % fmt_named(rs, 5)[:80], par, r.line)
     # spawned handles all land in `handles`
     # chunking
     dc = [c for c in par.calls() if c.name.endswith("::div_ceil") and c.bb in par.normal_blocks()]
